@@ -14,6 +14,10 @@ package serix
 func API.mapDecodeBasedOnType
   requires api != nil && opts != nil && valueType != nil
   modifies everything
+  -- the two places that hand the document's value to reflect.Value.Set unchanged (string and bool fields): Set panics
+  -- unless the value has the field's type, so its dynamic type must have been established before
+  ghost before call Value.Set #5: assert typeof(mapVal) == typeid(string)
+  ghost before call Value.Set #6: assert typeof(mapVal) == typeid(bool)
 
 func API.mapDecodeFloat
   requires api != nil && valueType != nil
